@@ -194,7 +194,7 @@ ZeroDurB  == {IntFuncs[P] \o "_" \o k : P \in 1..5, k \in ZeroKinds} \cup {"one_
 ZeroTab   == {<<IntFuncs[P] \o "_" \o k, "Integration." \o IntFuncs[P], IF P = 1 THEN "v3" ELSE "a3", "none", TRUE>> : P \in 1..5, k \in ZeroKinds}
              \cup {<<IntFuncs[P] \o "_allfr", "Integration." \o IntFuncs[P], IF P = 1 THEN "v3" ELSE "a3",
                      IF P = 1 THEN "none" ELSE "append1", TRUE>> : P \in 1..5}        \* (a frozen one_pop returns before it logs the epoch)
-             \cup {<<"one_pop_X_z0_c", "Integration.one_pop_X", "v3", "none", TRUE>>}
+             \cup {<<"one_pop_X_z0_c", "Integration.one_pop_X", "v3", "none", TRUE>>, <<"one_pop_X_allfr", "Integration.one_pop_X", "v3", "none", TRUE>>}
 IntZB     == {e[1] : e \in ZeroTab}
 \*     Degenerate arguments of the other functions: admixture proportions 0 / 1, projection to the same sizes, marginalising
 \*     over nothing, keeping every population, identity reorderings, folding a folded spectrum (refused), fold = 0.
